@@ -190,8 +190,9 @@ func (e *env) restart() {
 	w.gen = e.gen
 	oldDetail := w.detail
 	unfinished := map[int]bool{}
-	for i, jo := range w.st.Jobs {
-		unfinished[i] = !(jo.Completed || jo.Canceled)
+	for i, sj := range w.st.Store.Jobs {
+		// unfinished in the store: the new runner will report it canceled
+		unfinished[i] = sj.Present && !(sj.Completed || sj.Canceled)
 	}
 	// the tasks that were executing died with the old process
 	for j := range w.st.Runs {
